@@ -280,3 +280,18 @@ def run(repo: Repo, rep: Report, tier: str) -> None:
     # ---------------- R11 --------------------------------------------------------------
     _borrow20(repo, rep, "C16", "C16-R3", "C20-R11", "a top-level name keeps pointing at its own value when a loop body declares a local of the same name: the name table is given back "
               "the outer value for every name an iteration declares", select=lambda o: "iteration's own names" in o.construct or "outer ASTLowerer.signal_refs value back" in o.construct, floor=2)
+
+    # ---------------- R12 --------------------------------------------------------------
+    rep.rule("C20-R12", "a result is hidden only because the program itself reads it: the set of names counted as 'read' (which decides whether a named value still gets its "
+             "output anchor) is filled by identifier look-ups; inside an inlined function body a look-up counts only if it reaches the program's own value of that name, "
+             "not a local of the callee that is merely called the same — otherwise `Signal on = x > 3;` loses its anchor because some function has a local `on`")
+    li12 = repo.func("ExpressionLowerer.lower_identifier")
+    adds12 = [c for c in calls_in(li12.node, "add") if "referenced_signal_names" in norm(c.func)]
+    if not adds12:
+        raise AnalysisError("C20-R12: lower_identifier no longer records referenced names")
+    from .util import cguards as _cg12b
+    for c in adds12:
+        gs = [g for g, pol in _cg12b(li12, c)]
+        scoped = any("_inlining_stack" in g or "_inline_outer_refs" in g for g in gs)
+        rep.check(scoped, "C20-R12", "lower_identifier counts a name as read only when the look-up reaches the program's own value", "guarded by the inlining state" if scoped else
+                  "every look-up counts, also one that finds a callee's local: a top-level result of the same name is treated as consumed and gets no anchor", li12.loc(c))
